@@ -115,7 +115,7 @@ func (g *Gate) Deadline() (time.Time, bool) {
 	}
 	return time.Time{}, false
 }
-func (g *Gate) Value(any) any               { return nil }
+func (g *Gate) Value(any) any { return nil }
 
 // Err is intercepted like Done: the call site is identified (keys "q<k>", "w<k>", "p<k>": ordinal of
 // the line among the Err() call sites of startQueue / startWorker / PushTask) and the hook, if any,
